@@ -499,6 +499,25 @@ fn sweep(case: &TreeCase, m: &Model, t: &dyn DynDs, which: usize, deep: bool, ou
     }
 }
 
+/// Input-only shape of a tree case (used when the process died before any oracle ran).
+pub fn input_shape(case: &TreeCase) -> String {
+    let seq = case.seq.expand();
+    if seq.is_empty() {
+        return "empty_sequence".into();
+    }
+    let m = Model::new(seq);
+    let degree = if case.alias.is_quad() { 4 } else { 2 };
+    let counts: Vec<u64> = m.pos.values().map(|v| v.len() as u64).collect();
+    let frag_bits = if degree == 4 { 2 } else { 1 };
+    if case.alias.is_huffman() && huffman_max_len(&counts, degree) * frag_bits > 32 {
+        return "code_longer_than_32_bits".into();
+    }
+    if m.pos.len() == 1 {
+        return "single_distinct_symbol".into();
+    }
+    "general".into()
+}
+
 pub fn exec(case: &TreeCase) -> RunOut {
     let mut out = RunOut::default();
     let mut digest = Digest::default();
